@@ -95,6 +95,28 @@ fn sources() -> Vec<RV> {
         RV::Str(String::new()),
         RV::Str("long text ".repeat(500)),
         RV::Str("é".repeat(1100)),
+        // strings that spell a value of another kind (extraction never parses text)
+        RV::Str("2015-07-30T03:26:13Z".into()),
+        RV::Str("2015-07-30 03:26:13 UTC".into()),
+        RV::Str("1438226773".into()),
+        RV::Str("true".into()),
+        RV::Str("false".into()),
+        RV::Str("5".into()),
+        RV::Str("1.5".into()),
+        RV::Str("d1.5".into()),
+        RV::Str("PT5S".into()),
+        RV::Str("5s".into()),
+        RV::Str("none".into()),
+        RV::Str("[1]".into()),
+        RV::Str("{}".into()),
+        RV::Int(0),
+        RV::Int(1),
+        RV::Int(1438226773),
+        RV::float(1.0),
+        RV::float(0.0),
+        RV::Dec(RDec { neg: false, mant: 1, scale: 0 }),
+        RV::Dur(0),
+        RV::Dt(0, 0),
         RV::Int(5),
         RV::Int(i128::MAX),
         RV::float(1.5),
@@ -451,6 +473,41 @@ pub fn run(tier: Tier) -> i32 {
         };
         one("flatten-collision", catch(|| flat.serialize(reval::value::ser::ValueSerializer)), serde_json::to_value(&flat).unwrap_or_default());
         one("tag-collision", catch(|| tagged.serialize(reval::value::ser::ValueSerializer)), serde_json::to_value(&tagged).unwrap_or_default());
+    }
+    // maps holding none (and nested none) into a Value and back, through both map types: every entry
+    // survives and both routes give the same Value
+    {
+        use std::collections::{BTreeMap, HashMap};
+        let entries: Vec<(String, Value)> = vec![
+            ("nothing".to_string(), Value::None),
+            ("zero".to_string(), Value::Int(0)),
+            ("empty".to_string(), Value::String(String::new())),
+            ("inner".to_string(), Value::Map([("n".to_string(), Value::None)].into_iter().collect())),
+            ("list".to_string(), Value::Vec(vec![Value::None, Value::Int(1)])),
+            ("flag".to_string(), Value::Bool(false)),
+        ];
+        for take in 1..=entries.len() {
+            for skip in 0..entries.len() {
+                let sel: Vec<(String, Value)> = entries.iter().cycle().skip(skip).take(take).cloned().collect();
+                acc.count("executions", 1);
+                let hm: HashMap<String, Value> = sel.iter().cloned().collect();
+                let bm: BTreeMap<String, Value> = sel.iter().cloned().collect();
+                let (vh, vb): (Value, Value) = (hm.clone().into(), bm.clone().into());
+                let back_h = HashMap::<String, Value>::try_from(vh.clone());
+                let back_b = BTreeMap::<String, Value>::try_from(vb.clone());
+                if vh != vb || back_h.as_ref().ok() != Some(&hm) || back_b.as_ref().ok() != Some(&bm) {
+                    bad(&mut acc, "map-with-none-roundtrip".into(), format!("map {:?}: HashMap route gives {}, BTreeMap route {}; back: {:?} / {:?}", sel.iter().map(|x| &x.0).collect::<Vec<_>>(), RV::from_value(&vh).show(), RV::from_value(&vb).show(), back_h.map(|m| m.len()), back_b.map(|m| m.len())));
+                }
+                // optional values: Some(x) / None (Option<Value> is the form the API offers)
+                let ho: HashMap<String, Option<Value>> = sel.iter().enumerate().map(|(i, (k, _))| (k.clone(), if i % 2 == 0 { None } else { Some(Value::Int(i as i128)) })).collect();
+                let vo: Value = ho.clone().into();
+                let want = RV::Map(ho.iter().map(|(k, v)| (k.clone(), v.as_ref().map(RV::from_value).unwrap_or(RV::None))).collect());
+                if RV::from_value(&vo) != want {
+                    bad(&mut acc, "map-of-options".into(), format!("HashMap<String, Option<Value>> {ho:?} became {}", RV::from_value(&vo).show()));
+                }
+            }
+        }
+        acc.outcome("map-with-none-roundtrip");
     }
     // a map with several non-convertible entries: the extraction fails, and fails the same way
     // every time (which entry is blamed must not depend on hashing or iteration luck)
